@@ -244,6 +244,10 @@ def readByte (r : BytesReader) : M (BytesReader × UInt8) :=
   | [] => .error (.err "EOF")
   | b :: _ => pure ({ r with pos := r.pos + 1 }, b)
 
+/-- `(*bin.Decoder).ReadUint64(bin.LE)` (gagliardetto/binary v0.8.0): eight bytes little-endian, or an error and no progress -/
+def readU64LE (r : BytesReader) : M (BytesReader × UInt64) :=
+  readFull r 8 >>= fun t => pure (t.1, UInt64.ofNat (leDecode t.2))
+
 /-- a call of a function whose Go error travels through the monad, made by a function that treats errors as data: the
     error comes back as a value next to the zero results; panics and fuel exhaustion still propagate -/
 def catchErr {α : Type} (x : M α) (dflt : α) : M (α × Error) :=
